@@ -13,8 +13,10 @@ import (
 	"fmt"
 	"os"
 	"path/filepath"
+	"reflect"
 	"runtime"
 	"runtime/debug"
+	"strings"
 	"time"
 	"unicode/utf8"
 
@@ -58,6 +60,15 @@ type replay struct {
 type ctx struct {
 	*vlib.Ctx
 	fails map[string]int
+}
+
+var prevEnc, prevEncCopy []byte
+
+func (c *ctx) failOnce(kind, sig, desc string, rp interface{}) {
+	c.fails[kind]++
+	if c.fails[kind] <= 2 {
+		c.Fail(sig, desc, rp)
+	}
 }
 
 // ---------------------------------------------------------------------------
@@ -263,10 +274,67 @@ func decFailure(b []byte) string {
 			return "reencode-differs"
 		}
 	}
+	if f := decReuseFailure(b, o); f != "" {
+		return f
+	}
 	p := runDecPlain(b)
 	if (p.Panicked != "") != (o.Panicked != "") || (p.Err == nil) != (o.Err == nil) ||
 		(o.Err == nil && (!sameMsg(p.Msg, o.Msg) || p.Rest != o.Rest)) {
 		return "reader-kind-dependent"
+	}
+	return ""
+}
+
+// usedEncodings: valid encodings decoded into a Message BEFORE the input under test is
+// decoded into the same Message value.  The decoder's result must be a function of the
+// bytes only (as the model's `dec` is): whatever the Message held before must not show.
+// The first is a message with every field present; more are added from the structured
+// stream (so that pairs (first, second) with the second lacking a field occur).
+var usedEncodings [][]byte
+
+func richEncoding() []byte {
+	m := message.Message{
+		Cid:       mustCast(rawCidV1(0x55, 0x12, bytes.Repeat([]byte{7}, 32))),
+		Addrs:     [][]byte{{4, 127, 0, 0, 1, 6, 0x0a, 0x8d}, {1, 2, 3}},
+		ExtraData: bytes.Repeat([]byte{0xee}, 600),
+		OrigPeer:  samplePeers[0],
+	}
+	return runEnc(&m).Bytes
+}
+
+func decReuseFailure(b []byte, fresh decOut) (res string) {
+	for k, prev := range usedEncodings {
+		if k >= 2 && (len(b)+k)%3 != 0 { // the rich one and the latest always, the others in turn
+			continue
+		}
+		var m message.Message
+		if err := m.UnmarshalCBOR(bytes.NewReader(prev)); err != nil {
+			continue
+		}
+		var err error
+		rd := bytes.NewReader(b)
+		panicked := false
+		func() {
+			defer func() {
+				if recover() != nil {
+					panicked = true
+				}
+			}()
+			err = m.UnmarshalCBOR(rd)
+		}()
+		switch {
+		case panicked != (fresh.Panicked != ""):
+			return "decode-into-used-message-differs:panic"
+		case panicked:
+		case (err == nil) != (fresh.Err == nil):
+			return "decode-into-used-message-differs:error"
+		case err != nil:
+			if errClass(err) != errClass(fresh.Err) {
+				return "decode-into-used-message-differs:error-class"
+			}
+		case !reflect.DeepEqual(m, fresh.Msg) || rd.Len() != fresh.Rest:
+			return "decode-into-used-message-differs:stale-fields"
+		}
 	}
 	return ""
 }
@@ -307,7 +375,16 @@ func (c *ctx) decCase(kind string, b []byte, sample bool) {
 		c.fails[f]++
 		if c.fails[f] <= 2 {
 			s := shrinkBytes(b, decFailure)
-			c.Fail(fmt.Sprintf("%s:%s", f, hx(s)), fmt.Sprintf("%s on %d input bytes %s", f, len(s), hx(s)), replay{Kind: "decode", Input: hx(s)})
+			sig := fmt.Sprintf("%s:%s", f, hx(s))
+			if strings.HasPrefix(f, "decode-into-used-message") {
+				// the input is a valid message; name its shape, not its (random) bytes
+				if d := runDec(s); d.Err == nil && d.Panicked == "" {
+					sig = fmt.Sprintf("%s:%s", f, msgSummary(d.Msg))
+				} else {
+					sig = fmt.Sprintf("%s:invalid-input-of-%d-bytes", f, len(s))
+				}
+			}
+			c.Fail(sig, fmt.Sprintf("%s on %d input bytes %s (decoded after a message with all fields into the same Message value; a fresh Message gives a different result)", f, len(s), hx(s)), replay{Kind: "decode", Input: hx(s)})
 		}
 	}
 }
@@ -324,6 +401,12 @@ func (c *ctx) encCase(m message.Message, kind string, sample bool) []byte {
 	}
 	c.Count(fmt.Sprintf("enc:addrs-%s", bucket(len(m.Addrs))))
 	e := runEnc(&m)
+	if prevEnc != nil && !bytes.Equal(prevEnc, prevEncCopy) {
+		c.failOnce("encoder-aliasing", "encoder-aliasing:previous-encoding-overwritten", "the bytes MarshalCBOR returned for one message changed when the next message was encoded", replay{Kind: "roundtrip", Msg: ptr(descOf(m))})
+	}
+	if e.Err == nil && e.Panicked == "" {
+		prevEnc, prevEncCopy = e.Bytes, append([]byte{}, e.Bytes...)
+	}
 	var obs string
 	switch {
 	case e.Panicked != "":
@@ -531,6 +614,12 @@ func main() {
 	}
 
 	// ---- decode direction ----
+	usedEncodings = [][]byte{richEncoding()}
+	for _, b := range valid {
+		if len(usedEncodings) < 8 && len(b) < 400 && (b[0] == 0x84 || len(usedEncodings)%2 == 0) {
+			usedEncodings = append(usedEncodings, b)
+		}
+	}
 	rd := c.Rng.Fork("decode")
 	nValid := 0
 	budget := c.Pick(2600, 60000) // malformed cases
@@ -569,6 +658,7 @@ func main() {
 }
 
 func (c *ctx) runReplay() {
+	usedEncodings = [][]byte{richEncoding()}
 	var rp replay
 	if err := c.LoadReplay(&rp); err != nil {
 		panic(err)
